@@ -100,6 +100,7 @@ struct TaskOps {  // how a task talks to its engine (C++ or C front end)
   virtual void discovered(const std::string& key) = 0;
   virtual void complete(const std::string& value, bool force) = 0;
   virtual TaskOps* clone() const = 0;
+  virtual bool spawn(std::function<void()>) { return false; }   // run on the engine's own execution queue, if the front end has one
 };
 
 struct Ctx;
@@ -136,6 +137,7 @@ struct EngineFront {  // the engine under observation, C++ or C
   virtual void cancel() = 0;
   virtual void reset() = 0;
   virtual bool supportsReset() const { return true; }
+  virtual void useLaneQueue() {}
 };
 
 struct Ctx {
@@ -182,6 +184,7 @@ struct Ctx {
   std::mutex tombMu; std::vector<Tomb> tombs;
   void reap();
   Pool* pool = nullptr;
+  bool useEngineQueue = false;   // S2: deliver completions from jobs spawned on the engine's lane-based execution queue
   std::atomic<unsigned long> beforeWaitTicks{0};
   std::atomic<bool> cancelIssuedAtomic{false};
   std::function<void(const char*)> fatal;  // called on stall: must not return
@@ -506,7 +509,7 @@ inline void TaskCore::deliverFromWorker(TaskOps& ops) {
   std::vector<std::string> leafNames; for (int lf : comp.leaves) leafNames.push_back(cx.kname(lf));
   unsigned mode = cx.chooser.pick(4); unsigned delayUs = (unsigned)cx.chooser.pick(200);
   unsigned long tick = cx.beforeWaitTicks.load();
-  cx.pool->submit([=]() {
+  auto job = [=]() {
     if (mode == 0) { for (int i = 0; i < 200000 && c->beforeWaitTicks.load() == tick; ++i) std::this_thread::yield(); }   // fire right after the engine announces it is about to wait
     else if (mode != 1) usleep(delayUs);
     {
@@ -520,7 +523,8 @@ inline void TaskCore::deliverFromWorker(TaskOps& ops) {
     }
     for (auto& n : leafNames) o->discovered(n);
     o->complete(cp.value, cp.force);
-  });
+  };
+  if (!(cx.useEngineQueue && ops.spawn(job))) cx.pool->submit(job);
 }
 
 // ------------------------------------------------------------------------------------------------ cycles (C07)
